@@ -12,6 +12,8 @@ for f in sorted(glob.glob(os.path.join(here, "..", "harness", "corr", "C*.py")))
         if isinstance(node, ast.Assign) and getattr(node.targets[0], "id", None) == "MANIFEST":
             d = ast.literal_eval(node.value)
             pid = os.path.basename(f)[:-3]
+            if pid not in D.READY:
+                continue
             D.CLAIMED[pid] = d
             if d.get("translated"):
                 D.TRANSLATED.append(pid)
